@@ -6,6 +6,7 @@
   unsatisfiable) — the assumption under which the SAT back end is trusted.
 -/
 import SPModel.Sampler
+import SPProofs.Misc.Sampler
 
 namespace SPModel.C09
 open SPModel SPModel.Sampler
@@ -14,27 +15,80 @@ def Sound (solve : Solver) : Prop := ∀ φ τ, solve φ = some τ → cnfSat τ
 def Complete (solve : Solver) : Prop := ∀ φ, solve φ = none → ∀ τ, cnfSat τ φ = false
 
 theorem iterate_length_le (solve : Solver) (s n : Nat) (φ : Cnf) : (iterate solve s n φ).length ≤ n := by
-  sorry
+  induction n generalizing φ with
+  | zero => simp [iterate]
+  | succ n ih =>
+    unfold iterate
+    split
+    · simp
+    · simp only [List.length_cons]
+      exact Nat.succ_le_succ (ih _)
 
 /-- every returned sequence is the support projection of a model of the formula -/
 theorem iterate_models (solve : Solver) (hs : Sound solve) (s n : Nat) (φ : Cnf) :
     ∀ sol ∈ iterate solve s n φ, ∃ τ, cnfSat τ φ = true ∧ project s τ = sol := by
-  sorry
+  induction n generalizing φ with
+  | zero => simp [iterate]
+  | succ n ih =>
+    intro sol hsol
+    unfold iterate at hsol
+    split at hsol
+    · simp at hsol
+    · rename_i τ hτ
+      rcases List.mem_cons.mp hsol with h | h
+      · exact ⟨τ, hs φ τ hτ, h.symm⟩
+      · obtain ⟨τ', hsat, hp⟩ := ih _ sol h
+        rw [cnfSat_append_singleton, Bool.and_eq_true] at hsat
+        exact ⟨τ', hsat.1, hp⟩
 
 /-- no solution is returned twice -/
 theorem iterate_distinct (solve : Solver) (hs : Sound solve) (s n : Nat) (φ : Cnf) :
     (iterate solve s n φ).Nodup := by
-  sorry
+  induction n generalizing φ with
+  | zero => simp [iterate]
+  | succ n ih =>
+    unfold iterate
+    split
+    · simp
+    · rename_i τ hτ
+      refine List.nodup_cons.mpr ⟨?_, ih _⟩
+      intro hmem
+      obtain ⟨τ', hsat, hp⟩ := iterate_models solve hs s n _ _ hmem
+      rw [cnfSat_append_singleton, Bool.and_eq_true] at hsat
+      exact (clauseSat_blocking_iff_ne s τ τ').mp hsat.2 hp
 
-/-- if fewer than requested come back, every solution has been returned -/
-theorem iterate_exhaustive (solve : Solver) (hs : Sound solve) (hc : Complete solve) (s n : Nat) (φ : Cnf)
+/-- completeness alone gives exhaustiveness (soundness is not needed for this direction) -/
+theorem iterate_exhaustive_of_complete (solve : Solver) (hc : Complete solve) (s n : Nat) (φ : Cnf)
     (hlt : (iterate solve s n φ).length < n) :
     ∀ τ, cnfSat τ φ = true → project s τ ∈ iterate solve s n φ := by
-  sorry
+  induction n generalizing φ with
+  | zero => simp at hlt
+  | succ n ih =>
+    intro τ hτ
+    unfold iterate at hlt ⊢
+    split at hlt
+    · rename_i hnone
+      have := hc φ hnone τ
+      rw [hτ] at this
+      contradiction
+    · rename_i τ0 hτ0
+      simp only [List.length_cons, Nat.add_lt_add_iff_right] at hlt
+      show project s τ ∈ project s τ0 :: iterate solve s n (φ ++ [blocking (project s τ0)])
+      by_cases heq : project s τ = project s τ0
+      · exact List.mem_cons.mpr (Or.inl heq)
+      · refine List.mem_cons.mpr (Or.inr (ih _ hlt τ ?_))
+        rw [cnfSat_append_singleton, Bool.and_eq_true]
+        exact ⟨hτ, (clauseSat_blocking_iff_ne s τ0 τ).mpr heq⟩
+
+/-- if fewer than requested come back, every solution has been returned -/
+theorem iterate_exhaustive (solve : Solver) (_hs : Sound solve) (hc : Complete solve) (s n : Nat) (φ : Cnf)
+    (hlt : (iterate solve s n φ).length < n) :
+    ∀ τ, cnfSat τ φ = true → project s τ ∈ iterate solve s n φ :=
+  iterate_exhaustive_of_complete solve hc s n φ hlt
 
 /-- the blocking clause excludes exactly the assignments with that support projection -/
 theorem blocking_iff (s : Nat) (τ σ : Assign) :
     clauseSat σ (blocking (project s τ)) = true ↔ project s σ ≠ project s τ := by
-  sorry
+  exact clauseSat_blocking_iff_ne s τ σ
 
 end SPModel.C09
